@@ -37,6 +37,11 @@ pub enum Op {
     SyncMode { mode: String },
     /// drop the `Wal`, `Wal::open` the same directory
     Reopen,
+    /// crash with a damaged tail: drop the `Wal`, damage the frame `back` frames before the end
+    /// of the newest segment (one flipped byte, or the whole frame zeroed), `Wal::open` again.
+    /// The valid prefix of that segment ends before the damaged frame; what is appended
+    /// afterwards must follow it directly.
+    DamageReopen { back: u32, how: String },
     /// `Wal::sync` followed by `Wal::read_page` for every (file, page) of the page space
     ReadPages,
 }
@@ -53,6 +58,7 @@ impl Op {
             Op::Sync => "sync",
             Op::SyncMode { .. } => "syncmode",
             Op::Reopen => "reopen",
+            Op::DamageReopen { .. } => "damage_reopen",
             Op::ReadPages => "read_pages",
         }
     }
@@ -190,6 +196,21 @@ impl Model {
             }
             Op::SyncMode { mode } => {
                 self.sync_full = mode == "full";
+            }
+            Op::DamageReopen { back, .. } => {
+                let cur = self.segs.keys().next_back().copied().unwrap_or(1);
+                if let Some(fs) = self.segs.get_mut(&cur) {
+                    let n = fs.len();
+                    if n > *back as usize {
+                        let idx = n - 1 - *back as usize;
+                        for f in fs.drain(idx..) {
+                            self.truncated.insert(f.tag);
+                        }
+                        self.shape.insert("damaged-tail-reopen");
+                    }
+                }
+                self.apply(idx, &Op::Reopen);
+                self.n_reopen -= 0;
             }
             Op::Reopen => {
                 // Wal::open continues with the highest-numbered segment
